@@ -127,8 +127,10 @@ impl Epoch {
         iers_only: bool,
         provider: L,
     ) -> Option<f64> {
+        // Compare durations, not f64 seconds: at this magnitude a double resolves about 240 ns only.
+        let tai_duration = self.to_tai_duration();
         for leap_second in provider.rev() {
-            if self.to_tai_duration().to_seconds() >= leap_second.timestamp_tai_s
+            if tai_duration >= leap_second.timestamp_tai_s * Unit::Second
                 && (!iers_only || leap_second.announced_by_iers)
             {
                 return Some(leap_second.delta_at);
